@@ -419,10 +419,85 @@ thread_local! {
     /// panics seen while exercising an accepted array (become tags of the case)
     static USE: std::cell::RefCell<Vec<String>> = std::cell::RefCell::new(vec![]);
     static ORACLE: std::cell::RefCell<Vec<String>> = std::cell::RefCell::new(vec![]);
+    /// crashes (signals) of the forked exerciser: always an oracle failure
+    static CRASH: std::cell::RefCell<Vec<String>> = std::cell::RefCell::new(vec![]);
+}
+
+/// The exerciser runs in a helper process (`c09 exercise-server`, same binary): an
+/// accepted-but-malformed array may make safe accessors read out of bounds (the very thing the
+/// property forbids); a crash of the helper is reported as an oracle failure, not suffered.
+struct Helper {
+    child: std::process::Child,
+    out: std::io::BufReader<std::process::ChildStdout>,
+}
+thread_local! {
+    static HELPER: std::cell::RefCell<Option<Helper>> = std::cell::RefCell::new(None);
+    static CUR_LINE: std::cell::RefCell<String> = std::cell::RefCell::new(String::new());
+}
+fn spawn_helper() -> Option<Helper> {
+    use std::process::{Command, Stdio};
+    let exe = std::env::current_exe().ok()?;
+    let mut child = Command::new(exe).arg("exercise-server").stdin(Stdio::piped()).stdout(Stdio::piped()).stderr(Stdio::null()).spawn().ok()?;
+    let out = std::io::BufReader::new(child.stdout.take()?);
+    Some(Helper { child, out })
+}
+/// ask the helper to rebuild the array of `line` and exercise it; None = fine
+fn exercise_remote(line: &str) -> Option<String> {
+    use std::io::{BufRead, Write};
+    HELPER.with(|h| {
+        let mut h = h.borrow_mut();
+        if h.is_none() {
+            *h = spawn_helper();
+        }
+        let Some(helper) = h.as_mut() else { return None };
+        let ok = helper.child.stdin.as_mut().map(|i| writeln!(i, "{}", line).and_then(|_| i.flush()).is_ok()).unwrap_or(false);
+        let mut resp = String::new();
+        let n = if ok { helper.out.read_line(&mut resp).unwrap_or(0) } else { 0 };
+        if n == 0 {
+            // the helper died: a crash while using an accepted array
+            let _ = helper.child.kill();
+            let status = helper.child.wait().ok();
+            *h = None;
+            let what = format!("accepted-then-crash:{}", status.map(|s| format!("{:?}", s).replace(' ', "_")).unwrap_or_default());
+            CRASH.with(|o| o.borrow_mut().push(what));
+            return Some("CRASH".into());
+        }
+        let r = resp.trim();
+        if r == "-" { None } else { Some(r.to_string()) }
+    })
+}
+/// helper process: one case line per input line -> the exercise step that panicked, or `-`
+fn exercise_server() {
+    use std::io::{BufRead, Write};
+    quiet_panics();
+    let stdin = std::io::stdin();
+    let mut out = std::io::stdout();
+    for line in stdin.lock().lines() {
+        let Ok(line) = line else { break };
+        let t: Vec<&str> = line.split(' ').collect();
+        let built = std::panic::catch_unwind(|| -> Option<ArrayData> {
+            match t.get(1).copied() {
+                Some("trynew") => try_new_rec(&parse_phys_str(t[2])).ok(),
+                Some("full") => Some(unchecked_rec(&parse_phys_str(t[2]))),
+                Some("typed") | Some("tacc") | Some("trej") => typed(t[2], &parse_phys_str(t[3])).ok(),
+                _ => None,
+            }
+        });
+        let r = match built {
+            Ok(Some(d)) => exercise(&d).unwrap_or_else(|| "-".into()),
+            _ => "nobuild".into(),
+        };
+        let _ = writeln!(out, "{}", r);
+        let _ = out.flush();
+    }
 }
 
 fn accepted(data: &ArrayData) -> String {
-    if let Some(step) = exercise(data) {
+    if data.len() > 400 {
+        return "ok wf=1".to_string();
+    }
+    let line = CUR_LINE.with(|l| l.borrow().clone());
+    if let Some(step) = exercise_remote(&line) {
         USE.with(|o| o.borrow_mut().push(format!("use-panic:{}", step)));
     }
     "ok wf=1".to_string()
@@ -534,7 +609,7 @@ fn typed_len(kind: &str, p: &Phys) -> Option<usize> {
             let w = if *l { 8 } else { 4 };
             Some((p.bufs.first()?.len() / w).saturating_sub(1))
         }
-        ("fsl", Ty::Fsl(k, _, _)) => if *k == 0 { None } else { Some(p.kids.first()?.len / k) },
+        ("fsl", Ty::Fsl(k, _, _)) => if *k == 0 { Some(if p.nulls.is_some() { p.len } else { 0 }) } else { Some(p.kids.first()?.len / k) },
         ("dict", Ty::Dict(kw, _, _)) => Some(p.bufs.first()?.len() / kw),
         ("union", _) => Some(p.bufs.first()?.len()),
         ("run", Ty::Ree(rw, _)) => {
@@ -561,6 +636,7 @@ fn typed_len(kind: &str, p: &Phys) -> Option<usize> {
 // ------------------------------------------------------------------------------------ run
 
 fn run_case(line: &str) -> String {
+    CUR_LINE.with(|l| *l.borrow_mut() = line.to_string());
     let t: Vec<&str> = line.split(' ').collect();
     assert_eq!(t[0], "C09");
     match t[1] {
@@ -581,20 +657,67 @@ fn run_case(line: &str) -> String {
                 }
             })
         }
-        "tacc" | "trej" => {
+        "tacc" | "trej" | "typed" => {
             let p = parse_phys_str(t[3]);
             let kind = t[2];
+            if t[1] == "typed" && kind != "run" {
+                if let Some(l) = typed_len(kind, &p) {
+                    if l != p.len {
+                        return "SHAPE".into();
+                    }
+                }
+            }
             let r = guarded(|| match typed(kind, &p) {
                 Ok(d) => {
                     // the produced array must also pass the generic validator
-                    if d.validate_full().is_err() {
-                        ORACLE.with(|o| o.borrow_mut().push("typed-ok-but-validate_full-err".into()));
+                    match std::panic::catch_unwind(std::panic::AssertUnwindSafe(|| d.validate_full().is_err())) {
+                        Ok(true) => ORACLE.with(|o| o.borrow_mut().push("typed-ok-but-validate_full-err".into())),
+                        Ok(false) => {}
+                        Err(_) => USE.with(|o| o.borrow_mut().push("use-panic:validate_full-after-typed".into())),
                     }
                     accepted(&d)
                 }
                 Err(_) => "REJ".into(),
             });
             if r == "PANIC" { "REJ".into() } else { r }
+        }
+        "obuf" => {
+            // C09 obuf <w> <hex>: OffsetBuffer::new over a ScalarBuffer
+            let (w, b) = (t[2], unhex_e(t[3]));
+            guarded(|| {
+                if w == "8" {
+                    let o = OffsetBuffer::new(ScalarBuffer::<i64>::from(abuf(&b)));
+                    let _ = o.len();
+                } else {
+                    let o = OffsetBuffer::new(ScalarBuffer::<i32>::from(abuf(&b)));
+                    let _ = o.len();
+                }
+                "ok".into()
+            })
+        }
+        "fromlens" => {
+            // C09 fromlens <w> <lens>: OffsetBuffer::from_lengths
+            let lens: Vec<usize> = parse_list(t[3]);
+            let w = t[2];
+            guarded(|| {
+                if w == "8" {
+                    show_list(&OffsetBuffer::<i64>::from_lengths(lens).iter().copied().collect::<Vec<_>>())
+                } else {
+                    show_list(&OffsetBuffer::<i32>::from_lengths(lens).iter().copied().collect::<Vec<_>>())
+                }
+            })
+        }
+        "rebuf" => {
+            // C09 rebuf <w> <hex> <off> <len>: RunEndBuffer::new
+            let (w, b, off, len): (&str, Vec<u8>, usize, usize) = (t[2], unhex_e(t[3]), t[4].parse().unwrap(), t[5].parse().unwrap());
+            guarded(|| {
+                match w {
+                    "2" => { let _ = arrow_buffer::RunEndBuffer::new(ScalarBuffer::<i16>::from(abuf(&b)), off, len); }
+                    "4" => { let _ = arrow_buffer::RunEndBuffer::new(ScalarBuffer::<i32>::from(abuf(&b)), off, len); }
+                    _ => { let _ = arrow_buffer::RunEndBuffer::new(ScalarBuffer::<i64>::from(abuf(&b)), off, len); }
+                }
+                "ok".into()
+            })
         }
         "align" => {
             let mut c = Cur { s: t[2].as_bytes(), i: 0 };
@@ -1218,6 +1341,20 @@ fn mutate(rng: &mut Rng, p: &mut Phys) -> Option<String> {
                 Some("mut:ree-values-len".into())
             }
         }
+        19 => {
+            // an element buffer whose byte length is not a multiple of the element size
+            // (`Buffer::typed_data` asserts an empty suffix: the validator panics instead of returning Err)
+            let w = match &p.ty {
+                Ty::Utf8(l) | Ty::Binary(l) | Ty::List(l, _, _) => if *l { 8 } else { 4 },
+                Ty::Dict(kw, _, _) => *kw,
+                _ => return None,
+            };
+            if w <= 1 || p.bufs.is_empty() || p.bufs[0].is_empty() { return None; }
+            let k = 1 + rng.usize(w - 1);
+            let extra = rng.bytes(k);
+            p.bufs[0].extend_from_slice(&extra);
+            Some("mut:buffer-odd-length".into())
+        }
         _ => None,
     }
 }
@@ -1411,12 +1548,7 @@ fn gen_typed_case(rng: &mut Rng) -> (String, String) {
         }
         if p.len > 100_000 { continue; }
         let line_body = show_phys(&p);
-        let verdict = run_case(&format!("C09 tacc {} {}", kind, line_body));
-        ORACLE.with(|o| o.borrow_mut().clear());
-        USE.with(|o| o.borrow_mut().clear());
-        let op = if verdict.starts_with("ok") { "tacc" } else { "trej" };
-        tags.push_str(&format!(" verdict:{}", op));
-        return (format!("C09 {} {} {}", op, kind, line_body), tags);
+        return (format!("C09 typed {} {}", kind, line_body), tags);
     }
 }
 
@@ -1549,12 +1681,187 @@ fn gen_utf8_case(rng: &mut Rng) -> (String, String) {
     )
 }
 
+/// index classes around block boundaries (64, and 8/16/32), plus the ends
+fn pick_index(rng: &mut Rng, last: usize) -> usize {
+    let mut c: Vec<usize> = vec![0, 1, last.saturating_sub(1), last];
+    for b in [64usize, 128, 192, 256] {
+        for d in [-2i64, -1, 0, 1, 2] {
+            c.push((b as i64 + d) as usize);
+        }
+    }
+    for b in [8usize, 16, 32, 96, 160, 224] {
+        for d in [-1i64, 0, 1] {
+            c.push((b as i64 + d) as usize);
+        }
+    }
+    let c: Vec<usize> = c.into_iter().filter(|x| *x <= last).collect();
+    let blocks: Vec<usize> = [64usize, 128, 192, 256].into_iter().filter(|x| *x <= last).collect();
+    if !blocks.is_empty() && rng.chance(1, 3) {
+        return *rng.pick(&blocks);
+    }
+    if rng.chance(1, 10) { rng.usize(last + 1) } else { *rng.pick(&c) }
+}
+fn idx_tag(j: usize) -> String {
+    let m = j % 64;
+    format!("idx64:{}", if m == 0 { "0".to_string() } else if m == 63 { "63".into() } else if m == 1 { "1".into() } else { "other".into() })
+}
+
+/// Long buffers (up to ~300 entries) with a single defect placed at a chosen index class, through
+/// both entry points (ArrayData::try_new / validate_full and the typed / buffer constructors).
+fn gen_block_case(rng: &mut Rng) -> (String, String) {
+    let l = *rng.pick(&[64usize, 65, 66, 70, 100, 127, 128, 129, 130, 191, 192, 193, 200, 256, 257, 300]);
+    match rng.below(10) {
+        0..=4 => {
+            // offsets: strings / binary / list
+            let large = rng.chance(1, 3);
+            let w = if large { 8 } else { 4 };
+            let which = rng.below(3);
+            let mut vals: Vec<i64> = vec![1];
+            for _ in 0..l {
+                let last = *vals.last().unwrap();
+                vals.push(last + rng.usize(3) as i64);
+            }
+            let limit = *vals.last().unwrap() as usize + rng.usize(2);
+            let j = pick_index(rng, l);
+            let defect = match rng.below(8) {
+                0 => "none",
+                1 if j == 0 => "neg-first",
+                2 => "last-beyond",
+                _ => "decrease",
+            };
+            let mut jj = j;
+            match defect {
+                "neg-first" => vals[0] = -1,
+                "last-beyond" => { vals[l] = limit as i64 + 1; jj = l; }
+                "decrease" => {
+                    if j == 0 { jj = 1; }
+                    vals[jj] = vals[jj - 1] - 1;
+                }
+                _ => {}
+            }
+            let mut offs = vec![];
+            for v in &vals { put_int(*v, w, &mut offs); }
+            let entry = rng.below(4);
+            let tags = format!("blk:offsets defect:{} {} len:{} nt", defect, idx_tag(jj), l);
+            if entry == 3 {
+                return (format!("C09 obuf {} {}", w, hex(&offs)), format!("op:obuf {}", tags));
+            }
+            let nulls = if rng.chance(1, 4) { Some(rng.bytes((l + 7) / 8)) } else { None };
+            let p = if which == 2 {
+                let child = Phys { ty: Ty::Prim(1), len: limit, offset: 0, nulls: None, nc: None, bufs: vec![rng.bytes(limit)], kids: vec![] };
+                Phys { ty: Ty::List(large, Box::new(Ty::Prim(1)), true), len: l, offset: 0, nulls, nc: None, bufs: vec![offs], kids: vec![child] }
+            } else {
+                let data: Vec<u8> = (0..limit).map(|_| b'a' + rng.usize(26) as u8).collect();
+                Phys { ty: if which == 0 { Ty::Utf8(large) } else { Ty::Binary(large) }, len: l, offset: 0, nulls, nc: None, bufs: vec![offs, data], kids: vec![] }
+            };
+            let kind = if which == 2 { "list" } else { "bytes" };
+            match entry {
+                0 => (format!("C09 trynew {}", show_phys(&p)), format!("op:trynew type:{} {}", ty_tag(&p.ty), tags)),
+                1 => (format!("C09 full {}", show_phys(&p)), format!("op:full type:{} {}", ty_tag(&p.ty), tags)),
+                _ => (format!("C09 typed {} {}", kind, show_phys(&p)), format!("op:typed kind:{} {}", kind, tags)),
+            }
+        }
+        5 | 6 => {
+            // run ends
+            let rw = *rng.pick(&[2usize, 4, 8]);
+            let mut ends: Vec<i64> = vec![];
+            let mut e = 0i64;
+            for _ in 0..l { e += 1 + rng.usize(3) as i64; ends.push(e); }
+            let j = 1 + pick_index(rng, l - 2);
+            let defect = if rng.chance(1, 6) { "none" } else { "not-increasing" };
+            if defect != "none" { ends[j] = ends[j - 1] - rng.usize(2) as i64; }
+            let mut b = vec![];
+            for v in &ends { put_int(*v, rw, &mut b); }
+            let total = if defect == "none" { *ends.last().unwrap() as usize } else { (*ends.last().unwrap()).max(0) as usize };
+            let tags = format!("blk:runends defect:{} {} len:{} nt", defect, idx_tag(j), l);
+            let entry = rng.below(3);
+            if entry == 2 {
+                let (o, n) = (rng.usize(3), total.saturating_sub(3));
+                return (format!("C09 rebuf {} {} {} {}", rw, hex(&b), o, n), format!("op:rebuf {}", tags));
+            }
+            let re = Phys { ty: Ty::Prim(rw), len: l, offset: 0, nulls: None, nc: None, bufs: vec![b], kids: vec![] };
+            let vals = Phys { ty: Ty::Prim(1), len: l, offset: 0, nulls: None, nc: None, bufs: vec![rng.bytes(l)], kids: vec![] };
+            let p = Phys { ty: Ty::Ree(rw, Box::new(Ty::Prim(1))), len: total, offset: 0, nulls: None, nc: None, bufs: vec![], kids: vec![re, vals] };
+            if entry == 0 {
+                (format!("C09 trynew {}", show_phys(&p)), format!("op:trynew type:ree {}", tags))
+            } else {
+                (format!("C09 typed run {}", show_phys(&p)), format!("op:typed kind:run {}", tags))
+            }
+        }
+        7 | 8 => {
+            // dictionary keys
+            let kw = *rng.pick(&[1usize, 2, 4, 8]);
+            let signed = rng.bool();
+            let m = 1 + rng.usize(5);
+            let mut keys = vec![];
+            for _ in 0..l { put_int(rng.usize(m) as i64, kw, &mut keys); }
+            let j = pick_index(rng, l - 1);
+            let defect = if rng.chance(1, 6) { "none" } else { "key-out-of-range" };
+            if defect != "none" { set_int(&mut keys, j, kw, if signed && rng.bool() { -1 } else { m as i64 }); }
+            let vals = Phys { ty: Ty::Prim(1), len: m, offset: 0, nulls: None, nc: None, bufs: vec![rng.bytes(m)], kids: vec![] };
+            let p = Phys { ty: Ty::Dict(kw, signed, Box::new(Ty::Prim(1))), len: l, offset: 0, nulls: None, nc: None, bufs: vec![keys], kids: vec![vals] };
+            let tags = format!("blk:keys defect:{} {} len:{} nt", defect, idx_tag(j), l);
+            if rng.bool() {
+                (format!("C09 trynew {}", show_phys(&p)), format!("op:trynew type:dict {}", tags))
+            } else {
+                (format!("C09 typed dict {}", show_phys(&p)), format!("op:typed kind:dict {}", tags))
+            }
+        }
+        _ => {
+            // union type ids / dense offsets
+            let dense = rng.bool();
+            let fs = vec![(0i8, Ty::Prim(1)), (5i8, Ty::Prim(2))];
+            let lens = if dense { vec![3usize, 2] } else { vec![l, l] };
+            let mut ids = vec![];
+            let mut offs = vec![];
+            for _ in 0..l {
+                let k = rng.usize(2);
+                ids.push(fs[k].0 as u8);
+                if dense { put_int(rng.usize(lens[k]) as i64, 4, &mut offs); }
+            }
+            let j = pick_index(rng, l - 1);
+            let (defect, kf) = match rng.below(6) {
+                0 => ("none", ""),
+                1 | 2 if dense => {
+                    let k = if ids[j] == 0 { 0 } else { 1 };
+                    set_int(&mut offs, j, 4, if rng.bool() { -1 } else { lens[k] as i64 });
+                    ("union-offset", " kf:union-offset-unvalidated")
+                }
+                _ => { ids[j] = 3; ("union-typeid", " kf:union-typeid-unvalidated") }
+            };
+            let kids: Vec<Phys> = fs.iter().zip(&lens).map(|((_, t), n)| {
+                let w = if let Ty::Prim(w) = t { *w } else { 1 };
+                Phys { ty: t.clone(), len: *n, offset: 0, nulls: None, nc: None, bufs: vec![rng.bytes(n * w)], kids: vec![] }
+            }).collect();
+            let mut bufs = vec![ids];
+            if dense { bufs.push(offs); }
+            let p = Phys { ty: Ty::Union(dense, fs), len: l, offset: 0, nulls: None, nc: None, bufs, kids };
+            let typed_entry = rng.bool();
+            let tags = format!("blk:union defect:{} {} len:{} nt{}", defect, idx_tag(j), l, if typed_entry { "" } else { kf });
+            if typed_entry {
+                (format!("C09 typed union {}", show_phys(&p)), format!("op:typed kind:union {}", tags))
+            } else {
+                (format!("C09 trynew {}", show_phys(&p)), format!("op:trynew type:union {}", tags))
+            }
+        }
+    }
+}
+
+fn gen_fromlens_case(rng: &mut Rng) -> (String, String) {
+    let n = rng.usize(80);
+    let big = rng.chance(1, 6);
+    let lens: Vec<usize> = (0..n).map(|_| if big && rng.chance(1, 8) { 1usize << 30 } else { rng.usize(9) }).collect();
+    let w = if rng.bool() { 4 } else { 8 };
+    (format!("C09 fromlens {} {}", w, show_list(&lens)), format!("op:fromlens {}", if n > 1 { "nt" } else { "" }))
+}
+
 fn gen_case(rng: &mut Rng) -> (String, String) {
     match rng.below(20) {
         0 => if rng.bool() { gen_align_case(rng) } else { gen_nonnull_offset_case(rng) },
         1 | 2 => gen_batch_case(rng),
         3..=6 => gen_typed_case(rng),
         7..=9 => gen_utf8_case(rng),
+        10..=12 => if rng.chance(1, 12) { gen_fromlens_case(rng) } else { gen_block_case(rng) },
         _ => gen_layout_case(rng),
     }
 }
@@ -1576,6 +1883,10 @@ const WITNESS_TAGS: [&str; 5] = [
 ];
 
 fn main() {
+    if std::env::args().nth(1).as_deref() == Some("exercise-server") {
+        exercise_server();
+        return;
+    }
     let args = parse_args();
     if std::env::var("VERIF_LOUD").is_err() {
         quiet_panics();
@@ -1585,7 +1896,8 @@ fn main() {
         ORACLE.with(|o| o.borrow_mut().clear());
         USE.with(|o| o.borrow_mut().clear());
         let a = run_case(&line);
-        let fails: Vec<String> = ORACLE.with(|o| o.borrow_mut().drain(..).collect());
+        let mut fails: Vec<String> = ORACLE.with(|o| o.borrow_mut().drain(..).collect());
+        fails.extend(CRASH.with(|o| o.borrow_mut().drain(..).collect::<Vec<String>>()));
         let used: Vec<String> = USE.with(|o| o.borrow_mut().drain(..).collect());
         let mut tags = tags.to_string();
         for u in used {
